@@ -229,6 +229,7 @@ static std::string valstr(bool neg, uint64_t mag) { return mc::fmt("%s%llu", neg
 // ---------------------------------------------------------------- oracles
 // One rendering into an exactly-sized block. ref is the canonical lower-case text.
 // Returns the produced text (for the round trip) or nullptr if it was wrong.
+static bool g_reuse = false; // family32_all_bases: every rendering is repeated into a pre-used buffer
 static const char *check_render(const Rend &r, bool neg, uint64_t mag, int base, const char *ref, int len)
 {
     char *buf = pool(len + 1);
@@ -244,6 +245,15 @@ static const char *check_render(const Rend &r, bool neg, uint64_t mag, int base,
         mc::violation(mc::fmt("C07.%s.text.%s", r.name, cls), "%s(%s, base %d) wrote \"%s\" want \"%s\" in %s case (NUL at %d)", r.name,
                       valstr(neg, mag).c_str(), base, vis(buf, len + 1).c_str(), ref, r.upper() ? "upper" : "lower", len);
         return nullptr;
+    }
+    if (g_reuse)
+    {
+        // again into a buffer that is never cleared and still holds the previous (often longer) text: same text, same terminator
+        static char reused[96];
+        r.fn(raw_of(neg, mag), reused, base);
+        if (memcmp(reused, buf, len + 1) != 0)
+            mc::violation(mc::fmt("C07.%s.stale_text_in_reused_buffer", r.name), "%s(%s, base %d): \"%s\" in a fresh buffer, \"%s\" in a buffer that held an earlier text",
+                          r.name, valstr(neg, mag).c_str(), base, vis(buf, len).c_str(), vis(reused, strnlen(reused, 95)).c_str());
     }
     if (r.ret_end ? ret != buf + len : (ret != buf && ret != buf + len))
         mc::violation(mc::fmt("C07.%s.returned_pointer", r.name), "%s(%s, base %d) returned buf%+td, the terminator is at buf+%d", r.name,
@@ -623,6 +633,7 @@ MC_INIT
         bool sgn = part < 2;
         size_t n = g_f32.size(), from = (part & 1) ? n / 2 : 0, to = (part & 1) ? n : n / 2;
         mc::describe("base %d, family F32[%zu..%zu) read as %s", base, from, to, sgn ? "int32" : "uint32");
+        g_reuse = true;
         mc::nontrivial();
         Seen seen;
         uint64_t calls = 0, nt = 0;
@@ -635,6 +646,7 @@ MC_INIT
             if ((i & 255) == 0)
                 mc::tick();
         }
+        g_reuse = false;
         emit_seen(seen);
         mc::more_cases(calls - 1, nt);
     });
